@@ -173,3 +173,80 @@ func TestMapAndOnceModel(t *testing.T) {
 		t.Errorf("Map/Once model: %d bad of %d executions (complete=%v)", bad, st.Executions, st.Complete)
 	}
 }
+
+// select on unbuffered channels: a receive clause meets a parked sender exactly once; a closed channel is a
+// broadcast; a send clause meets a parked receiver.
+func TestSelectRendezvousModel(t *testing.T) {
+	bad, execs := 0, 0
+	prog := func() ([]ThreadSpec, func(*Exec) []string) {
+		data := make(chan int)
+		done := make(chan struct{})
+		var got []int
+		sawDone := 0
+		recvSel := func() {
+			for {
+				sel := Select("t", false, []SelCase{RecvCase(data), RecvCase(done)})
+				if sel.Index == 0 {
+					v, _ := SelRecv(sel, data)
+					got = append(got, v)
+					continue
+				}
+				sawDone++
+				return
+			}
+		}
+		return []ThreadSpec{
+				{Name: "R1", Body: recvSel},
+				{Name: "R2", Body: recvSel},
+				{Name: "S", Body: func() { Send(data, 1, "t"); Send(data, 2, "t"); Close(done, "t") }},
+			}, func(ex *Exec) []string {
+				execs++
+				sum := 0
+				for _, v := range got {
+					sum += v
+				}
+				if ex.Unmodelled != "" || ex.Deadlock || len(got) != 2 || sum != 3 || sawDone != 2 {
+					bad++
+				}
+				return nil
+			}
+	}
+	st := Explore(prog, ExploreOpts{Bound: -1, Race: true})
+	if !st.Complete || bad != 0 || execs < 4 {
+		t.Errorf("select receivers with a plain sender: %d bad of %d executions (complete=%v, unmodelled=%q)", bad, execs, st.Complete, st.Unmodelled)
+	}
+	// a select with a send clause and a plain receiver; the default branch when nobody is there
+	bad, execs = 0, 0
+	prog2 := func() ([]ThreadSpec, func(*Exec) []string) {
+		data := make(chan int)
+		sent, defaults, got := 0, 0, 0
+		return []ThreadSpec{
+				{Name: "S", Body: func() {
+					for sent == 0 {
+						sel := Select("t", true, []SelCase{SendCase(data, 7)})
+						if sel.Index == 0 {
+							sent++
+						} else {
+							defaults++
+							Yield()
+						}
+						if defaults > 3 {
+							Send(data, 7, "t")
+							sent++
+						}
+					}
+				}},
+				{Name: "R", Body: func() { got = Recv(data, "t") }},
+			}, func(ex *Exec) []string {
+				execs++
+				if ex.Unmodelled != "" || ex.Deadlock || got != 7 || sent != 1 {
+					bad++
+				}
+				return nil
+			}
+	}
+	st = Explore(prog2, ExploreOpts{Bound: -1, Race: true})
+	if !st.Complete || bad != 0 || execs < 2 {
+		t.Errorf("select sender with a plain receiver: %d bad of %d executions (complete=%v, unmodelled=%q)", bad, execs, st.Complete, st.Unmodelled)
+	}
+}
